@@ -102,10 +102,12 @@ fn parse_message(data: &[u8]) -> IResult<&[u8], Interrogation> {
         let (data, station) = Station::parse(data)?;
         push_unwrap(&mut stations, station);
         let remaining = remaining_bits(data);
-        let data = if remaining >= 30 {
+        let data = if remaining >= 32 {
+            // Two spare bits separate the first station's requests from the second station
+            let (data, _spare) = take_bits::<_, u8, _, _>(2u8)(data)?;
             let (data, station) = Station::parse(data)?;
             push_unwrap(&mut stations, station);
-            take_bits::<_, u8, _, _>(2u8)(data)?.0
+            data
         } else {
             (<&[u8]>::default(), 0)
         };
